@@ -9,7 +9,6 @@ reopen the working tree, compare.  If it raises MalformedTransform: the tree mus
 untouched.  A hang is a liveness violation."""
 
 import os
-import signal
 
 from dromedary.errors import NoSuchFile
 
@@ -41,6 +40,10 @@ ASSUMPTIONS = [
 ]
 STEP_CAP = 20000
 HANG_S = 30
+# A run is ~60 ms of work; on this VM a fork per run costs 1-9 s under load (page-table work is
+# serialised).  Every run rebuilds its whole world below its own scratch directory, the seam and
+# the apply hook are installed once and consult the Sim owning the calling thread.
+ISOLATION = os.environ.get("VERIF_XFORM_ISOLATION", "thread")
 
 
 def warm():
@@ -168,7 +171,306 @@ class RefModel:
             s["kind"] = {"create_file": "file", "create_directory": "dir", "create_symlink": "symlink"}[k]
 
 
+WILD = os.environ.get("VERIF_C14_WILD") == "1"
+
+
 def generate(rng, tier):
+    """Default: scripts composed of valid edits plus deliberately injected conflicts of
+    every kind the resolvers know (the way commands produce them).  VERIF_C14_WILD=1: fully
+    random operation sequences (far outside what the resolvers were written for)."""
+    if WILD:
+        return generate_wild(rng, tier)
+    return generate_core(rng, tier)
+
+
+class Core:
+    """Path-level bookkeeping for generate_core: label -> entry; emits operations in the
+    same vocabulary as the wild generator."""
+
+    def __init__(self, rng, fmt, spec, unversioned):
+        self.rng = rng
+        self.fmt = fmt
+        self.ops = []
+        self.n = 0
+        self.e = {"root": {"name": "", "parent": None, "kind": "dir", "v": True, "tree": True, "alive": True, "fid": "root-id"}}
+        for path, kind, _d, _x in list(spec) + list(unversioned):
+            par = "t:" + path.rsplit("/", 1)[0] if "/" in path else "root"
+            self.e["t:" + path] = {
+                "name": path.rsplit("/", 1)[-1],
+                "parent": par,
+                "kind": kind,
+                "v": [path, kind, _d, _x] in spec,
+                "tree": True,
+                "alive": True,
+                "fid": xformsim.file_id_for(path).decode(),
+            }
+
+    # -- queries
+    def alive(self, pred=lambda lab, e: True):
+        return sorted(lab for lab, e in self.e.items() if e["alive"] and lab != "root" and pred(lab, e))
+
+    def dirs(self, versioned_only=True):
+        return ["root"] + self.alive(lambda lab, e: e["kind"] == "dir" and (e["v"] or not versioned_only))
+
+    def children(self, lab):
+        return sorted(c for c, e in self.e.items() if e["alive"] and e["parent"] == lab)
+
+    def subtree(self, lab):
+        out = [lab]
+        for c in self.children(lab):
+            out.extend(self.subtree(c))
+        return out
+
+    def inside(self, lab, anc):
+        while lab is not None:
+            if lab == anc:
+                return True
+            lab = self.e[lab]["parent"]
+        return False
+
+    def taken(self, parent):
+        return {self.e[c]["name"] for c in self.children(parent)}
+
+    def free_name(self, parent):
+        names = [n for n in NAMES if n not in self.taken(parent)]
+        return self.rng.choice(names) if names else None
+
+    def fresh(self):
+        self.n += 1
+        return f"n{self.n}"
+
+    # -- valid edits
+    def add(self, parent=None, name=None, kind=None, versioned=True):
+        rng = self.rng
+        parent = parent or rng.choice(self.dirs())
+        name = name or self.free_name(parent)
+        if name is None:
+            return None
+        kind = kind or rng.choice(["file", "file", "dir", "symlink"])
+        lab = self.fresh()
+        if kind == "file":
+            ex = rng.choice([None, None, True, False]) if versioned else None
+            self.ops.append(["new_file", lab, name, parent, f"{name} new\n" * rng.randint(1, 3), versioned, ex])
+        elif kind == "dir":
+            self.ops.append(["new_directory", lab, name, parent, versioned])
+        else:
+            self.ops.append(["new_symlink", lab, name, parent, rng.choice(xformsim.SAFE_SYMLINK_TARGETS), versioned])
+        self.e[lab] = {"name": name, "parent": parent, "kind": kind, "v": versioned, "tree": False, "alive": True, "execset": kind == "file"}
+        return lab
+
+    def remove(self, lab):
+        for x in reversed(self.subtree(lab)):
+            e = self.e[x]
+            if not e["tree"] or e.get("touched"):
+                return False
+        for x in reversed(self.subtree(lab)):
+            e = self.e[x]
+            self.ops.append(["delete_contents", x])
+            if e["v"]:
+                self.ops.append(["unversion_file", x])
+            e["alive"] = False
+        return True
+
+    def move(self, lab, parent=None, name=None):
+        rng = self.rng
+        cands = [d for d in self.dirs() if not self.inside(d, lab)]
+        parent = parent or rng.choice(cands)
+        if self.inside(parent, lab):
+            return False
+        name = name or self.free_name(parent)
+        if name is None:
+            return False
+        self.ops.append(["adjust_path", name, parent, lab])
+        self.e[lab].update(name=name, parent=parent)
+        return True
+
+    def replace(self, lab):
+        e = self.e[lab]
+        if not e["tree"] or e.get("touched") or e["kind"] != "file":
+            return False
+        self.ops.append(["delete_contents", lab])
+        self.ops.append(["create_file", f"replacement for {lab} with more text\n" * self.rng.randint(1, 3), lab])
+        e["touched"] = True
+        return True
+
+    def kind_change(self, lab):
+        e = self.e[lab]
+        if not e["tree"] or e.get("touched") or self.children(lab):
+            return False
+        to = self.rng.choice([k for k in ("file", "dir", "symlink") if k != e["kind"]])
+        self.ops.append(["delete_contents", lab])
+        if to == "file":
+            self.ops.append(["create_file", f"{lab} became a file\n", lab])
+        elif to == "dir":
+            self.ops.append(["create_directory", lab])
+        else:
+            self.ops.append(["create_symlink", "nowhere", lab])
+        e.update(kind=to, touched=True)
+        return True
+
+    def set_exec(self, lab):
+        e = self.e[lab]
+        if e["kind"] != "file" or not e["v"] or e.get("execset"):
+            return False
+        self.ops.append(["set_executability", self.rng.random() < 0.6, lab])
+        e["execset"] = True
+        return True
+
+    def edit(self):
+        rng = self.rng
+        k = rng.choice(["add", "add", "remove", "move", "move", "replace", "kind", "exec", "unversion", "version"])
+        labs = self.alive()
+        if k == "add" or not labs:
+            return self.add(versioned=rng.random() < 0.9) is not None
+        lab = rng.choice(labs)
+        if k == "remove":
+            return self.remove(lab)
+        if k == "move":
+            return self.move(lab)
+        if k == "replace":
+            return self.replace(lab)
+        if k == "kind":
+            return self.kind_change(lab)
+        if k == "exec":
+            return self.set_exec(lab)
+        e = self.e[lab]
+        if k == "unversion" and e["tree"] and e["v"] and not self.children(lab) and not e.get("touched"):
+            self.ops.append(["unversion_file", lab])
+            e["v"] = False
+            return True
+        if k == "version" and e["tree"] and not e["v"] and e["kind"] == "file":
+            self.ops.append(["version_file", f"vf-{len(self.ops)}", lab])
+            e["v"] = True
+            return True
+        return False
+
+    # -- conflict injectors (what commands run into)
+    def inject(self, kind):
+        rng = self.rng
+        labs = self.alive()
+        tree_dirs = [x for x in labs if self.e[x]["kind"] == "dir" and self.e[x]["tree"] and self.e[x]["v"] and not self.e[x].get("touched")]
+        if kind == "duplicate":
+            parents = [d for d in self.dirs() if self.taken(d)]
+            if not parents:
+                return False
+            d = rng.choice(parents)
+            name = rng.choice(sorted(self.taken(d)))
+            movable = [x for x in labs if not self.inside(d, x) and not (self.e[x]["parent"] == d and self.e[x]["name"] == name)]
+            if movable and rng.random() < 0.5:
+                x = rng.choice(movable)
+                self.ops.append(["adjust_path", name, d, x])
+                self.e[x].update(name=name, parent=d)
+                return True
+            return self.add(parent=d, name=name) is not None
+        if kind == "duplicate id":
+            ids = [self.e[x]["fid"] for x in labs if self.e[x]["tree"] and self.e[x]["v"]]
+            if self.fmt != "bzr" or not ids:
+                return False
+            lab = self.add(kind="file", versioned=False)
+            if lab is None:
+                return False
+            self.ops.append(["version_file", rng.choice(ids), lab])
+            self.e[lab]["v"] = True
+            return True
+        if kind == "parent loop":
+            pairs = [(a, b) for a in tree_dirs for b in tree_dirs if a != b and self.inside(b, a)]
+            if not pairs:
+                return False
+            a, b = rng.choice(pairs)
+            self.ops.append(["adjust_path", self.e[a]["name"], b, a])
+            return True
+        if kind == "missing parent":
+            cands = [d for d in tree_dirs if not any(self.e[c]["kind"] == "dir" for c in self.children(d))]
+            if cands and rng.random() < 0.8:
+                d = rng.choice(cands)
+                # the directory goes, (some of) what is inside stays or arrives
+                keep = rng.random() < 0.5 and self.children(d)
+                if not keep:
+                    for c in self.children(d):
+                        if not self.remove(c):
+                            return False
+                    self.add(parent=d, versioned=rng.random() < 0.7)
+                self.ops.append(["delete_contents", d])
+                self.ops.append(["unversion_file", d])
+                self.e[d]["touched"] = True
+                return True
+            lab = self.fresh()
+            par = rng.choice(self.dirs())
+            name = self.free_name(par)
+            if name is None:
+                return False
+            self.ops.append(["create_path", lab, name, par])
+            self.e[lab] = {"name": name, "parent": par, "kind": "dir", "v": False, "tree": False, "alive": True}
+            return self.add(parent=lab) is not None
+        if kind == "unversioned parent":
+            cands = [d for d in tree_dirs if any(self.e[c]["v"] for c in self.children(d))]
+            if not cands:
+                return False
+            d = rng.choice(cands)
+            self.ops.append(["unversion_file", d])
+            self.e[d]["touched"] = True
+            return True
+        if kind == "non-directory parent":
+            files = [x for x in labs if self.e[x]["kind"] in ("file", "symlink") and self.e[x]["v"] and self.e[x]["tree"] and not self.e[x].get("touched")]
+            withkids = [d for d in tree_dirs if self.children(d)]
+            if withkids and rng.random() < 0.4:
+                d = rng.choice(withkids)
+                self.ops.append(["delete_contents", d])
+                self.ops.append(["create_file", f"{d} is a file now\n", d])
+                self.e[d]["touched"] = True
+                return True
+            if not files:
+                return False
+            f = rng.choice(files)
+            self.e[f]["touched"] = True
+            lab = self.fresh()
+            name = rng.choice(NAMES)
+            self.ops.append(["new_file", lab, name, f, f"{name} below a file\n", True, None])
+            self.e[lab] = {"name": name, "parent": f, "kind": "file", "v": True, "tree": False, "alive": True, "execset": True}
+            return True
+        if kind == "versioning no contents":
+            lab = self.fresh()
+            par = rng.choice(self.dirs())
+            name = self.free_name(par)
+            if name is None:
+                return False
+            self.ops.append(["create_path", lab, name, par])
+            self.ops.append(["version_file", f"vf-{len(self.ops)}", lab])
+            self.e[lab] = {"name": name, "parent": par, "kind": None, "v": True, "tree": False, "alive": False}
+            return True
+        return False
+
+
+CONFLICT_KINDS = ["duplicate", "duplicate id", "parent loop", "missing parent", "unversioned parent", "non-directory parent", "versioning no contents"]
+
+
+def generate_core(rng, tier):
+    fmt = rng.choice(["bzr", "bzr", "git"])
+    spec = xformsim.gen_tree_spec(rng, 3, 7, targets=xformsim.SAFE_SYMLINK_TARGETS)
+    unversioned = []
+    if rng.random() < 0.3 and not any(e[0] == "u1" for e in spec):
+        unversioned = [["u1", "file", "unversioned\n", False]]
+    c = Core(rng, fmt, spec, unversioned)
+    steps = ["edit"] * rng.randint(1, 4) + [rng.choice(CONFLICT_KINDS) for _ in range(rng.choice([0, 1, 1, 1, 2, 2]))]
+    rng.shuffle(steps)
+    injected = []
+    for st in steps:
+        for _ in range(6):
+            if (c.edit() if st == "edit" else c.inject(st)):
+                if st != "edit":
+                    injected.append(st)
+                break
+    # keep only what the API accepts (a template may have been cut short)
+    m = RefModel(spec, unversioned)
+    ops = []
+    for op in c.ops:
+        if m.ok(op):
+            m.apply(op)
+            ops.append(op)
+    return {"fmt": fmt, "style": "core", "injected": injected, "tree": spec, "unversioned": unversioned, "ops": ops}
+
+
+def generate_wild(rng, tier):
     fmt = rng.choice(["bzr", "bzr", "git"])
     spec = xformsim.gen_tree_spec(rng, 3, 7, targets=xformsim.SAFE_SYMLINK_TARGETS)
     unversioned = []
@@ -192,7 +494,7 @@ def generate(rng, tier):
         "create_directory": 1,
         "create_symlink": 1,
     }
-    tame = rng.random() < 0.75
+    tame = False
     if rng.random() < 0.3:  # a run biased towards moves (loops, duplicates)
         weights["adjust_path"] = 12
     pool = [k for k, w in weights.items() for _ in range(w)]
@@ -235,7 +537,7 @@ def generate(rng, tier):
         if m.ok(op) and (not tame or m.tame(op)):
             m.apply(op)
             ops.append(op)
-    return {"fmt": fmt, "style": "tame" if tame else "wild", "tree": spec, "unversioned": unversioned, "ops": ops}
+    return {"fmt": fmt, "style": "wild", "tree": spec, "unversioned": unversioned, "ops": ops}
 
 
 # --------------------------------------------------------------------------------------
@@ -292,29 +594,37 @@ def run_script(sim, tt, plan, fmt):
     return done
 
 
-def tree_view(tree, listing, with_ids, versioned_dirs=True):
+def _guard(fn, guarded):
+    if not guarded:
+        return fn()
+    try:
+        return fn()
+    except Exception as e:  # noqa: BLE001 - an accessor of the preview tree that cannot answer
+        return f"<raises {type(e).__name__}>"
+
+
+def tree_view(tree, listing, with_ids, versioned_dirs=True, guarded=False):
     """{path: [kind, content, versioned, file_id, executable]} of `tree` (a preview tree or
-    a working tree) for the given [(path, kind)] listing; read through the Tree API."""
+    a working tree) for the given [(path, kind)] listing; read through the Tree API.  With
+    `guarded`, an accessor that raises yields a marker instead (one broken accessor must
+    not hide what the others show)."""
     out = {}
     for path, kind in listing:
-        versioned = bool(tree.is_versioned(path))
+        versioned = _guard(lambda: bool(tree.is_versioned(path)), guarded)
         if kind == "directory" and not versioned_dirs:
             versioned = None  # git: directories are not versioned objects
         fid = None
-        if versioned and with_ids:
-            f = tree.path2id(path)
+        if versioned is True and with_ids:
+            f = _guard(lambda: tree.path2id(path), guarded)
             fid = f.decode("utf-8", "replace") if isinstance(f, bytes) else f
         content = ""
         ex = None
-        try:
-            if kind == "file":
-                content = tree.get_file_text(path).decode("latin-1")
-            elif kind == "symlink":
-                content = tree.get_symlink_target(path)
-        except (NoSuchFile, OSError) as e:
-            content = f"<unreadable: {type(e).__name__}>"
-        if kind == "file" and versioned:
-            ex = bool(tree.is_executable(path))
+        if kind == "file":
+            content = _guard(lambda: tree.get_file_text(path).decode("latin-1"), guarded)
+        elif kind == "symlink":
+            content = _guard(lambda: tree.get_symlink_target(path), guarded)
+        if kind == "file" and versioned is True:
+            ex = _guard(lambda: bool(tree.is_executable(path)), guarded)
         out[path] = [kind, content, versioned, fid, ex]
     return out
 
@@ -344,13 +654,37 @@ def moved_unchanged(tt):
 moved_from = {}
 
 
+def reversioned_paths(tt):
+    """Final paths of existing, unversioned tree entries the transform versions (git)."""
+    from breezy.transform import FinalPaths
+
+    fp = FinalPaths(tt)
+    out = set()
+    for trans_id in getattr(tt, "_versioned", ()):
+        tp = tt.tree_path(trans_id)
+        if tp is not None and trans_id not in tt._new_contents:
+            try:
+                out.add(fp.get_path(trans_id))
+            except Exception:  # noqa: BLE001
+                pass
+    return out
+
+
 def preview_listing(pt):
+    """[(path, kind)] of everything the preview tree shows: versioned entries and extras
+    that have a file kind (iter_entries_by_dir + extras + kind; walkdirs is not used: it
+    raises NoSuchFile for any deleted entry whose path changed or that was unversioned)."""
+    paths = {p for p, _ie in pt.iter_entries_by_dir() if p != ""}
+    paths.update(pt.extras())
     out = []
-    for _dirpath, children in pt.walkdirs():
-        for path, _base, kind, _st, _vk in children:
-            if kind != "unknown":
-                out.append((path, kind))
-    return sorted(out)
+    for p in sorted(paths):
+        try:
+            k = pt.kind(p)
+        except NoSuchFile:
+            continue  # an entry without contents
+        if k is not None:
+            out.append((p, k))
+    return out
 
 
 def disk_listing(root):
@@ -384,8 +718,31 @@ class Hang(Exception):
     pass
 
 
-def _on_alarm(signum, frame):
-    raise Hang()
+class Watchdog:
+    """Raises Hang asynchronously in the thread that armed it (works off the main thread,
+    where SIGALRM is not available)."""
+
+    def __init__(self, seconds):
+        self.seconds = seconds
+        self.timer = None
+
+    def arm(self):
+        import ctypes
+        import threading
+
+        tid = threading.get_ident()
+
+        def fire():
+            ctypes.pythonapi.PyThreadState_SetAsyncExc(ctypes.c_ulong(tid), ctypes.py_object(Hang))
+
+        self.timer = threading.Timer(self.seconds, fire)
+        self.timer.daemon = True
+        self.timer.start()
+
+    def disarm(self):
+        if self.timer is not None:
+            self.timer.cancel()
+            self.timer = None
 
 
 def execute(sim, plan):
@@ -411,15 +768,16 @@ def execute(sim, plan):
         return _t.conflict_pass(tt, conflicts)
 
     stage = "script"
-    old = signal.signal(signal.SIGALRM, _on_alarm)
+    dog = Watchdog(HANG_S)
     tt = tree.transform()
     malformed = None
     crashed = None
     preview_error = None
     moved = {}
+    reversioned = set()
     try:
         done = run_script(sim, tt, plan, fmt)
-        signal.alarm(HANG_S)
+        dog.arm()
         stage = "resolve_conflicts"
         try:
             _t.resolve_conflicts(tt, pass_func=pass_func)
@@ -431,12 +789,13 @@ def execute(sim, plan):
             crashed = (e, resolver_in(e.__traceback__))
         if malformed is None and crashed is None:
             stage = "preview"
-            moved = moved_unchanged(tt)
             try:
                 pt = tt.get_preview_tree()
                 pre_list = preview_listing(pt)
-                pre = tree_view(pt, pre_list, with_ids, vdirs)
+                pre = tree_view(pt, pre_list, with_ids, vdirs, guarded=True)
                 pre_versioned = versioned_set(pt, with_ids, vdirs)
+                moved = moved_unchanged(tt)
+                reversioned = reversioned_paths(tt)
             except Hang:
                 raise
             except Exception as e:  # noqa: BLE001 - the preview tree cannot even be listed
@@ -453,12 +812,11 @@ def execute(sim, plan):
                 tt.apply()
             except _t.MalformedTransform as e:
                 sim.fail("resolved_applies", ["resolved_applies", "none", "apply:MalformedTransform"], f"resolve_conflicts returned a conflict-free transform but apply() reports {e}")
-        signal.alarm(0)
+        dog.disarm()
     except Hang:
         sim.fail("liveness", ["liveness", "none", stage], f"{stage} did not finish within {HANG_S} s")
     finally:
-        signal.alarm(0)
-        signal.signal(signal.SIGALRM, old)
+        dog.disarm()
         try:
             tt.finalize()
         finally:
@@ -510,21 +868,33 @@ def execute(sim, plan):
         if a == b:
             continue
         if a is None or b is None:
-            add("paths", f"{p!r}: preview {'has no such path' if a is None else a[:1]} / applied {'has no such path' if b is None else b[:1]}")
+            text = f"{p!r}: preview {'has no such path' if a is None else a[:1]} / applied {'has no such path' if b is None else b[:1]}"
+            if fmt == "git" and p in reversioned:
+                add("git:version-existing-file-ignored", text)
+            else:
+                add("paths", text)
             continue
         for i, f in enumerate(fields):
             if a[i] == b[i]:
                 continue
             text = f"{p!r} {f}: preview {a[i]!r} / applied {b[i]!r}"
             under_moved_dir = any(p.startswith(d + "/") for d, k in moved.items() if k == "directory")
-            if f == "contents" and str(a[i]).startswith("<unreadable") and a[2] is False and p not in moved:
+            raises = str(a[i]).startswith("<raises")
+            if f == "executable" and a[2] != b[2]:
+                continue  # consequence of the versioning mismatch reported for the same path
+            if f == "contents" and p in moved:
+                # the preview looks a moved-but-unchanged entry up at its NEW path in the old tree
+                add(f"{fmt}:preview-read:moved-unchanged", text)
+            elif f == "contents" and raises and a[2] is not True:
                 # the preview cannot read a file the transform creates without versioning it
                 add(f"{fmt}:preview-read:unversioned-new", text)
-            elif f == "contents" and str(a[i]).startswith("<unreadable") and p in moved:
-                # known family: the preview looks a moved-but-unchanged entry up at its NEW path in the old tree
-                add(f"{fmt}:preview-read:moved-unchanged", text)
-            elif f == "executable" and p in moved and a[i] is False and b[i] is True:
-                add(f"{fmt}:executable:moved-unchanged", text)
+            elif f == "executable" and (raises or (p in moved and a[i] is False and b[i] is True)):
+                # is_executable without an explicit new value asks the old tree about the NEW path
+                add(f"{fmt}:is_executable:new-path-in-old-tree", text)
+            elif f == "versioned" and raises and fmt == "git":
+                add("git:is_versioned:unversioned-new-entry", text)
+            elif fmt == "git" and f in ("versioned", "executable") and p in reversioned and b[2] is False:
+                add("git:version-existing-file-ignored", text)
             elif fmt == "git" and f in ("versioned", "executable") and under_moved_dir and a[2] is True and b[2] is False:
                 add("git:child-of-moved-directory", text)
             else:
@@ -535,7 +905,9 @@ def execute(sim, plan):
             continue
         text = f"versioned entry {p!r}: preview {pv.get(p)!r} / applied {qv.get(p)!r}"
         in_moved_dir = any((p.startswith(d + "/") or tp.startswith(td + "/")) for d, k in moved.items() if k == "directory" for tp in [moved_from.get(p, p)] for td in [moved_from.get(d, d)])
-        if fmt == "git" and (in_moved_dir or any(p.startswith(td + "/") for td in moved_from.values())):
+        if fmt == "git" and p in reversioned and qv.get(p) is None:
+            add("git:version-existing-file-ignored", text)
+        elif fmt == "git" and (in_moved_dir or any(p.startswith(td + "/") for td in moved_from.values())):
             add("git:child-of-moved-directory", text)
         else:
             add("versioned-entries", text)
